@@ -305,11 +305,17 @@ func (g *G) HParam(contactLike bool) string {
 		val = g.alnum(1, 3)
 	default:
 		name = g.tok(1, 8)
-		switch g.R.Intn(4) {
+		switch g.R.Intn(6) {
 		case 0:
 			hasVal = false
 		case 1:
 			val = g.Quoted()
+		case 2:
+			if !g.Strict {
+				val = "" // "name=" : empty value
+			} else {
+				val = g.tok(1, 4)
+			}
 		default:
 			val = g.tok(1, 10)
 		}
@@ -389,6 +395,9 @@ func (g *G) NameAddr(contactLike bool) string {
 	}
 	for i := 0; i < np; i++ {
 		sb.WriteString(g.OptLWS() + ";" + g.OptLWS())
+		if g.R.Chance(1, 25) {
+			sb.WriteString(";") // empty parameter
+		}
 		sb.WriteString(g.HParam(contactLike))
 	}
 	if g.R.Chance(1, 20) {
